@@ -1,6 +1,10 @@
 //! A work coalescing queue batches work to be done together, for purposes of performance.
 
+#[cfg(not(loom))]
 use std::sync::{Mutex, MutexGuard};
+
+#[cfg(loom)]
+use loom::sync::{Mutex, MutexGuard};
 
 use biometrics::{Collector, Counter};
 
